@@ -79,11 +79,11 @@ func reachBlocks(fn *ssa.Function, start *ssa.BasicBlock, blockedBlocks map[int]
 			break
 		}
 		seen[st.b.Index] = true
-		for _, t := range feasibleSuccs(st.b, st.pred) {
+		for _, t := range succsOf(st) {
 			if blockedBlocks[t.Index] {
 				continue
 			}
-			w.push(st.b, t)
+			w.pushState(st, t)
 		}
 	}
 	return seen
@@ -101,7 +101,7 @@ func Reaches(a, b ssa.Instruction) bool {
 	}
 	w := newWalker(nil)
 	// a's block was entered from an unknown predecessor
-	for _, t := range ab.Succs {
+	for _, t := range feasibleSuccs(ab, nil) {
 		w.push(ab, t)
 	}
 	for {
@@ -143,7 +143,7 @@ func ReachesAvoiding(a, b ssa.Instruction, avoid func(ssa.Instruction) bool) boo
 		return false
 	}
 	w := newWalker(nil)
-	for _, t := range a.Block().Succs {
+	for _, t := range feasibleSuccs(a.Block(), nil) {
 		w.push(a.Block(), t)
 	}
 	for {
@@ -590,7 +590,7 @@ func CheckedOnPaths(c *ssa.Call, x ssa.Instruction) bool {
 		}
 	}
 	w := newWalker(blocked)
-	for _, t := range cb.Succs {
+	for _, t := range feasibleSuccs(cb, nil) {
 		w.push(cb, t)
 	}
 	for {
